@@ -75,6 +75,9 @@ def _metrics(case, k=1.0, s=1.0):
     #  re-bases such a trajectory on its first frame, so any positions query -- figures slice the trajectory -- legitimately changes its distances)
     if case.get('plots') and not case.get('as_disp') and k == 1.0 and s == 1.0:
         synth.call_plots(traj, ['plot_displacement_per_atom', 'plot_displacement_per_element', 'plot_msd_per_element', 'plot_displacement_histogram', 'plot_frequency_vs_occurence', 'plot_vibrational_amplitudes'])
+    if case.get('plots') is False and not case.get('as_disp') and k == 1.0 and s == 1.0 and case.get('rseed', 0) % 3 == 0:
+        # derived trajectories (drift-corrected, selection, centre of mass) are made first and kept: the source still answers by its own frames
+        _kept = (traj.apply_drift_correction(), traj.filter(str(traj.species[0])), traj.center_of_mass())
     mt = traj.metrics()
     out = {'density': float(mt.particle_density()), 'molarity': float(mt.mol_per_liter()),
            'dtracer': float(mt.tracer_diffusivity(dimensions=case['dim'])),
